@@ -16,7 +16,7 @@ PROPERTY = "C03"
 THEOREM_MODULE = "NemoVerif.Theorems.C03"
 METHOD = "C03.conv"
 RULE = ("case as in C01 with faults: fault sites = every input rail, every output rail, the dialog action, retrieve_relevant_chunks (1.0); "
-        "every site x every turn <= 3 enumerated for the configuration table (pairs / triples in thorough), the faulty turn is followed by a clean turn. "
+        "the exception value of a fault is one of: message / empty str() (ValueError(), TimeoutError(), bare assert, NotImplementedError()) / multi-line / KeyError, raised from async functions (even rail ids), sync functions (odd ids) and a class-based action (dialog action); every site x every turn <= 3 enumerated for the configuration table (pairs / triples in thorough), the faulty turn is followed by a clean turn. "
         "non-trivial = a scripted fault was actually reached (the faulting action was invoked); distinct = distinct case JSON.")
 TRUSTED_BASE = [
     "translator + static AST tie harness/translate/c01.py, adapter harness/impl/pipeline.py, Lean driver Drive/C01.lean (shared with C01)",
@@ -48,13 +48,7 @@ def model_requests(case, obs):
     return G.model_requests(case, obs, METHOD)
 
 
-def fault_reached(tc, to):
-    for s in to["steps"]:
-        if s[0] == "rail" and G.verdict_of(tc, s[1], s[2]) == "f":
-            return True
-        if s[0] == "act" and ((s[1] == "dialog_act" and tc.get("act_fault")) or (s[1] == "retrieve" and tc.get("retr_fault"))):
-            return True
-    return False
+fault_reached = G.fault_reached
 
 
 def nontrivial(case, obs):
@@ -73,8 +67,10 @@ def sites(cfg):
     return s
 
 
-def apply_fault(rng, cfg, turn, site):
+def apply_fault(rng, cfg, turn, site, exc_kind=None):
     kind, i = site
+    if exc_kind is not None:
+        turn["exc_kind"] = exc_kind
     if kind in ("in", "out"):
         key = "vin" if kind == "in" else "vout"
         turn[key] = [[r, ("f" if r == i else v)] for r, v in turn[key]]
@@ -95,13 +91,23 @@ def gen_cases(rng, tier):
     cases = []
     cfgs = [c for c in G.all_cfgs(SHAPES, carries=("messages", "state") if tier == "thorough" else ("messages",))
             if G.fits(c["ver"], c["dialog"], len(c["in"]), len(c["out"]))]
+    n = 0
     for cfg in cfgs:
         ss = sites(cfg)
         for pos in range(3):
             for site in ss:
+                # the exception VALUE cycles through the kinds (message / empty str() / multi-line / TimeoutError / assert / ...)
                 c = dict(cfg)
                 c["turns"] = [G.clean_turn(rng, cfg, k + 1) for k in range(pos + 2)]
-                apply_fault(rng, cfg, c["turns"][pos], site)
+                apply_fault(rng, cfg, c["turns"][pos], site, G.P.EXC_KINDS[n % len(G.P.EXC_KINDS)])
+                n += 1
+                cases.append(c)
+        # every site once more with an exception whose str() is empty, and once with a multi-line message
+        for site in ss:
+            for ek in (("empty", "multiline") if tier == "quick" else tuple(G.P.EXC_KINDS)):
+                c = dict(cfg)
+                c["turns"] = [G.clean_turn(rng, cfg, k + 1) for k in range(2)]
+                apply_fault(rng, cfg, c["turns"][0], site, ek)
                 cases.append(c)
         if tier == "thorough":
             for (p1, s1), (p2, s2) in itertools.combinations([(p, s) for p in range(3) for s in ss], 2):
@@ -109,6 +115,16 @@ def gen_cases(rng, tier):
                 c["turns"] = [G.clean_turn(rng, cfg, k + 1) for k in range(max(p1, p2) + 2)]
                 apply_fault(rng, cfg, c["turns"][p1], s1)
                 apply_fault(rng, cfg, c["turns"][p2], s2)
+                cases.append(c)
+    # stateless deployment (Colang 1.0 history rebuilt from the plain messages, no events cache): every site, turns 1 and 2
+    for cfg in G.all_cfgs(SHAPES[:2], carries=("fresh",)):
+        if cfg["ver"] != "1.0" or not G.fits(cfg["ver"], cfg["dialog"], len(cfg["in"]), len(cfg["out"])):
+            continue
+        for pos in range(2):
+            for site in sites(cfg):
+                c = dict(cfg)
+                c["turns"] = [G.clean_turn(rng, cfg, k + 1) for k in range(pos + 2)]
+                apply_fault(rng, cfg, c["turns"][pos], site)
                 cases.append(c)
     # faults mixed with rejections / rewrites (random), incl. triples
     for _ in range(60 if tier == "quick" else 2500):
@@ -177,4 +193,5 @@ def oracle(case, obs):
 
 
 def signature(case, obs, msg):
-    return G.region_signature(case, obs, msg, oracle_codes_stale=("poisoned-input", "poisoned-reject", "unchecked-text", "fault-llm"), oracle_codes_flag=("unchecked-text",))
+    return G.region_signature(case, obs, msg, oracle_codes_stale=("poisoned-input", "poisoned-reject", "unchecked-text", "fault-llm"), oracle_codes_flag=("unchecked-text",),
+                              oracle_codes_fresh=("fault-reply", "fault-leak", "fault-llm", "unchecked-text"))
